@@ -40,6 +40,9 @@ Order.vos Order.vok Order.required_vos: Order.v Ast.vos Generated.vos HookSites.
 P_Config.vo P_Config.glob P_Config.v.beautified P_Config.required_vo: P_Config.v Ast.vo Generated.vo Config.vo ToConfig.vo Model.vo
 P_Config.vio: P_Config.v Ast.vio Generated.vio Config.vio ToConfig.vio Model.vio
 P_Config.vos P_Config.vok P_Config.required_vos: P_Config.v Ast.vos Generated.vos Config.vos ToConfig.vos Model.vos
+P_Count.vo P_Count.glob P_Count.v.beautified P_Count.required_vo: P_Count.v Ast.vo Generated.vo Config.vo Model.vo HookSites.vo P_OpVisit.vo P_Local.vo
+P_Count.vio: P_Count.v Ast.vio Generated.vio Config.vio Model.vio HookSites.vio P_OpVisit.vio P_Local.vio
+P_Count.vos P_Count.vok P_Count.required_vos: P_Count.v Ast.vos Generated.vos Config.vos Model.vos HookSites.vos P_OpVisit.vos P_Local.vos
 P_Directives.vo P_Directives.glob P_Directives.v.beautified P_Directives.required_vo: P_Directives.v Ast.vo Generated.vo Config.vo Model.vo Directives.vo P_OpVisit.vo P_Kinds.vo
 P_Directives.vio: P_Directives.v Ast.vio Generated.vio Config.vio Model.vio Directives.vio P_OpVisit.vio P_Kinds.vio
 P_Directives.vos P_Directives.vok P_Directives.required_vos: P_Directives.v Ast.vos Generated.vos Config.vos Model.vos Directives.vos P_OpVisit.vos P_Kinds.vos
